@@ -141,6 +141,15 @@ func (x *Exec) assume(st *State, t Term) {
 	if t.S == "true" {
 		return
 	}
+	if strings.Contains(t.S, "(forall ") || strings.Contains(t.S, "(exists ") {
+		// Quantified facts are kept out of the path conditions: pc gets a fresh activation literal b and the
+		// fact is asserted once, positively, as (=> b fact). Path conditions (which also serve as ite guards where
+		// paths merge) stay quantifier-free, so the solvers never see a quantifier in a negative or mixed position.
+		b := x.c().freshName("act")
+		x.c().emit(fmt.Sprintf("(declare-const %s Bool)", b))
+		x.c().emit(fmt.Sprintf("(assert (=> %s %s))", b, t.S))
+		t = Term{S: b, Sort: sortBool}
+	}
 	st.pc = x.namePC(tAnd(st.pc, t))
 }
 
